@@ -87,7 +87,7 @@ class Models:
         e = s.eng; A = e.A
         if kind == 'range':
             lo, hi = args
-            nm = e.fresh_name('in')
+            nm = f'in!{len(st.inputs)}!range'
             v = A.fresh(st, nm, 64)
             t = A.term(st, v, 64)
             if A.name == 'BITS':
@@ -116,7 +116,7 @@ class Models:
             st.pc.append(t == vals[0])
             return vals[0]
         tk, bits = s.NONDET[kind]
-        nm = e.fresh_name('in')
+        nm = f'in!{len(st.inputs)}!{kind}'      # path-local call index: the same input has the same name in every flavour
         if tk == 'int':
             v = A.fresh(st, nm, bits)
             if kind == 'bool':
@@ -258,6 +258,22 @@ class Models:
         if isinstance(args[0], Ptr) and args[0].obj is not None:
             st.foot['shared'].add(args[0].obj)
         return None
+
+    def x_vf_concurrently(s, st, stack, work, args, ins):
+        """call fn(ctx) once inside a footprint region; the region is closed by the harness (vf_region_end)"""
+        e = s.eng
+        fp, ctx = args
+        if not (isinstance(fp, Ptr) and fp.obj is not None and fp.obj[0] == 'g'):
+            raise Inconclusive('vf_concurrently: not a function pointer')
+        f = e.mod.funcs.get(fp.obj[1])
+        if f is None: raise Inconclusive('vf_concurrently: unknown function')
+        s.x_vf_region_begin(st, stack, work, [0], ins)
+        from symex import Frame
+        fr = stack[-1]
+        fr.calling = ins
+        stack.append(Frame(f, [ctx]))
+        e.funcs_entered.add(fp.obj[1])
+        return s.RAISED     # control continues in the callee; the result (void) is delivered on return
 
     def x_vf_region_end(s, st, stack, work, args, ins):
         f = st.foot
@@ -491,7 +507,9 @@ class Models:
 
     def x___cxa_atexit(s, st, stack, work, args, ins): return 0
     def x___cxa_guard_acquire(s, st, stack, work, args, ins):
-        if st.foot is not None: st.foot['mutable_globals'].add('static-local-guard')
+        if st.foot is not None and st.foot.get('on'):
+            st.foot['mutable_globals'].add('static-local-guard')
+            return 0
         raise Inconclusive('function-local static initialisation')
 
     def thrower(tinfo):
@@ -662,7 +680,7 @@ class Models:
         if not isinstance(n, int): raise Inconclusive('vf_istream_bytes with symbolic length')
         sm = Stream(); sm.len = n
         for i in range(n):
-            nm = e.fresh_name('in'); v = e.A.fresh(st, nm, 8); st.inputs.append(('u8', nm, v)); s.pin(st, v, 8, 'int')
+            nm = f'in!{len(st.inputs)}!u8'; v = e.A.fresh(st, nm, 8); st.inputs.append(('u8', nm, v)); s.pin(st, v, 8, 'int')
             sm.data.append(v)
         return s.new_stream_obj(st, sm, True)
 
